@@ -396,11 +396,12 @@ class AugmentedMPS(BaseAPIClass):
             if rank == 4:
                 pass
             elif rank == 3:
-                tmp_gamma.shape = (shape[0], shape[1], 1, shape[2])
+                tmp_gamma = tmp_gamma.reshape(
+                    (shape[0], shape[1], 1, shape[2]))
             elif rank == 2:
-                tmp_gamma.shape = (1, shape[0]*shape[1], 1, 1)
+                tmp_gamma = tmp_gamma.reshape((1, shape[0]*shape[1], 1, 1))
             elif rank == 1:
-                tmp_gamma.shape = (1, shape[0], 1, 1)
+                tmp_gamma = tmp_gamma.reshape((1, shape[0], 1, 1))
             else:
                 raise ValueError()
             tmp_gammas.append(tmp_gamma)
